@@ -187,7 +187,7 @@ static inline unsigned gen_top(vf::Src &s, std::vector<tx::Packet> &out, std::ve
 					unsigned nib[8] = { pg >> 8, (pg >> 4) & 15, pg & 15, 0, 0, bk.pick(3) ? 0 : bk.pick(8), bk.pick(3) ? 0 : bk.pick(10), bk.pick(16) };
 					for (int i = 0; i < 8; ++i) q[i] = enc::ham8(nib[i]);
 					unsigned len = bk.pick(13);
-					for (unsigned i = 0; i < 12; ++i) q[8 + i] = enc::par((uint8_t) (i < len ? 0x41 + bk.pick(26) : 0x20));
+					for (unsigned i = 0; i < 12; ++i) q[8 + i] = enc::par((uint8_t) (i < len ? (bk.pick(10) ? 0x41 + bk.pick(26) : bk.pick(0x20)) : 0x20));	// now and then a spacing attribute inside the title
 				}
 				out.push_back(p);
 			} else { std::vector<unsigned> n; for (int i = 0; i < 40; ++i) n.push_back(bk.pick(4) ? bk.pick(10) : bk.pick(16)); hamrow(mag, pk, n); }
